@@ -246,18 +246,37 @@ pub fn call<F: Fl>(a: &MultiPolygon<F>, b: &MultiPolygon<F>, op: Operation, px: 
     }
 }
 
-/// `call` under a wall-clock guard: the library call runs on its own thread; if it has not
-/// returned after `secs` seconds the outcome is "timeout" (the thread is abandoned - the caller
-/// must end the process soon). A hang is data, like a panic.
+/// One long-lived worker thread executes every guarded library call of the process, in order:
+/// the calls of a session (and of consecutive sessions) share one thread and therefore one set
+/// of thread-local state, exactly like a caller's own thread would. The requesting side waits
+/// with a wall-clock limit; if a call does not return the outcome is "timeout" (a hang is data,
+/// like a panic) and the worker is abandoned - the caller must end the process soon.
+type Job = Box<dyn FnOnce() + Send>;
+fn worker() -> &'static std::sync::Mutex<std::sync::mpsc::Sender<Job>> {
+    static W: std::sync::OnceLock<std::sync::Mutex<std::sync::mpsc::Sender<Job>>> = std::sync::OnceLock::new();
+    W.get_or_init(|| {
+        let (tx, rx) = std::sync::mpsc::channel::<Job>();
+        std::thread::Builder::new()
+            .stack_size(256 << 20)
+            .spawn(move || {
+                for job in rx {
+                    job();
+                }
+            })
+            .expect("spawn worker");
+        std::sync::Mutex::new(tx)
+    })
+}
+
 pub fn call_guarded<F: Fl>(a: &MultiPolygon<F>, b: &MultiPolygon<F>, op: Operation, px: char, py: char, budget: u64, secs: u64) -> (Outcome, Option<MultiPolygon<F>>) {
     let (a2, b2) = (a.clone(), b.clone());
     let (tx, rx) = std::sync::mpsc::channel();
-    let h = std::thread::Builder::new().stack_size(64 << 20).spawn(move || {
+    let job: Job = Box::new(move || {
         let r = call(&a2, &b2, op, px, py, budget);
         let _ = tx.send(r);
     });
-    if h.is_err() {
-        return (Outcome { outcome: "panic".into(), msg: "could not spawn".into(), popped: 0 }, None);
+    if worker().lock().unwrap().send(job).is_err() {
+        return (Outcome { outcome: "panic".into(), msg: "worker thread gone".into(), popped: 0 }, None);
     }
     match rx.recv_timeout(std::time::Duration::from_secs(secs)) {
         Ok(r) => r,
